@@ -388,9 +388,10 @@ theorem keep_best_false_preserves_self (inf : α) (known : Bool) (obj : Objectiv
   · cases hf; rfl
   · simp only [Bool.false_eq_true, if_false] at hf; cases hf; rfl
 
-/-- `keep_best=True`: either nothing was fitted and `self` is unchanged, or `self` ends with the content of
-a recorded model `r` (a candidate that did not raise, or `self` itself if it was fitted) whose score is
-≤ every recorded score, and `r` is the earliest such -/
+/-- `keep_best=True`: either nothing was fitted, or there is no best model (no recorded score below `inf`;
+excluded for finite scores by `best_exists_of_finite`) — in both cases `self` is unchanged — or `self` ends
+with the content of a recorded model `r` (a candidate that did not raise, or `self` itself if it was fitted)
+whose score is ≤ every recorded score, and `r` is the earliest such -/
 theorem keep_best_true_self_is_best (inf : α) (known : Bool) (obj : Objective) (adm : List String)
     (dflt : ParamGrid β) (pgs : List (ParamGrid β)) (rs : Bool) (selfM : M)
     (selfScore : Objective → Option α) (fit : Objective → Nat → List (GVal β) → Option (M × α))
@@ -399,6 +400,7 @@ theorem keep_best_true_self_is_best (inf : α) (known : Bool) (obj : Objective) 
     let outs := p.candidates.zipIdx.map (fun ci => fit p.objective ci.2 ci.1)
     let st := loop inf (selfScore p.objective) (outs.map (·.map Prod.snd))
     (st.models = [] ∧ o.selfAfter = selfM) ∨
+    (st.best = none ∧ o.selfAfter = selfM) ∨
     (∃ r s, o.best = some r ∧
       o.selfAfter = content selfM (fun i => (outs.getD i none).map Prod.fst) r ∧
       (∀ x ∈ st.models, s ≤ x.2) ∧
@@ -415,8 +417,9 @@ theorem keep_best_true_self_is_best (inf : α) (known : Bool) (obj : Objective) 
   · right
     simp only [if_true] at hf
     cases hb : st.best with
-    | none => rw [hb] at hf; cases hf
+    | none => rw [hb] at hf; cases hf; left; exact ⟨rfl, rfl⟩
     | some r =>
+      right
       rw [hb] at hf
       cases hf
       obtain ⟨h1, _, h3, _⟩ := best_is_first_argmin inf (selfScore p.objective) (outs.map (·.map Prod.snd))
@@ -443,7 +446,9 @@ theorem returned_spec (kb rs : Bool) (selfM : M) (fitM : Nat → Option M) (st :
       exact ⟨rfl, fun hnil => absurd hnil hne, fun _ => rfl⟩
     · simp only [if_true] at h
       cases hb : st.best with
-      | none => rw [hb] at h; cases h
+      | none =>
+        rw [hb] at h; cases h
+        exact ⟨rfl, fun hnil => absurd hnil hne, fun _ => rfl⟩
       | some r =>
         rw [hb] at h; cases h
         exact ⟨rfl, fun hnil => absurd hnil hne, fun _ => rfl⟩
@@ -469,6 +474,11 @@ theorem gridsearch_fitted_count (inf : α) (known : Bool) (obj : Objective) (adm
   induction l with
   | nil => rfl
   | cons x xs ih => cases x <;> simp [ih]
+
+/-- only a fitted model constrains the number of columns of `X` -/
+theorem data_rule (fitted : Bool) (m n : Nat) :
+    dataCheck fitted m n = .ok () ↔ (fitted = true → n = m) := by
+  cases fitted <;> simp [dataCheck]
 
 /-- a rejected objective (or any other planning error) rejects the whole call before any fit -/
 theorem gridsearch_rejects_objective (inf : α) (known : Bool) (obj : Objective) (adm : List String)
